@@ -10,10 +10,15 @@
    multiset of (segment, label), exactly one track per label in use and segment of that label's
    timeline support(collar) -- nothing else (for fewer than 26^64 - 1 tracks, the fuel of the model's
    word generator).
-   Tied by the correspondence, not proved: percent=True.
+   chart(percent=True) lists the labels of chart() in the same order, each with its duration over the
+   sum of the label durations; the shares add up to one (as rationals; the float division is tied by
+   the correspondence).
    Statements only. *)
 From PV Require Import Model.AnnotationOps Proofs.SupportP Proofs.MeasureP Proofs.AnnotationInvP
   Proofs.AnalyzeP Proofs.CooccurrenceP Proofs.AnnCropInterP Proofs.WordsP Proofs.AnnSupportP.
+From Coq Require Import QArith.
+Local Close Scope Q_scope.
+Local Open Scope Z_scope.
 
 Theorem C09_chart : forall eps a, AInv eps a ->
   let ch := snd (chart eps a) in
@@ -61,6 +66,14 @@ Theorem C09_argmax_within_support : forall eps, 0 <= eps -> forall a S, AInv eps
                 snd (label_duration eps (fst (labels eps c)) l') <= snd (label_duration eps (fst (labels eps c)) l)
   end.
 Proof. exact argmax_support_spec. Qed.
+Theorem C09_chart_percent_is_duration_over_sum_of_label_durations : forall eps a, AInv eps a ->
+  let ch := snd (chart eps a) in
+  let pc := snd (chart_percent eps a) in
+  let total := fold_right Z.add 0 (map snd ch) in
+  map fst pc = map fst ch /\ map (fun p => fst (snd p)) pc = map snd ch /\
+  (forall l d T, In (l, (d, T)) pc -> T = total /\ d = tl_duration eps (lab_tl eps (a_tracks a) l)) /\
+  (0 < total -> (fold_right Qplus 0%Q (map (fun p => Qmake (fst (snd p)) (Z.to_pos (snd (snd p)))) pc) == 1%Q)%Q).
+Proof. exact chart_percent_spec. Qed.
 Theorem C09_matrix_entries : forall eps a b,
   mul_ann eps a b = map (fun i => map (fun j => entry eps a b i j) (snd (labels eps b))) (snd (labels eps a)).
 Proof. exact mul_entries. Qed.
@@ -78,10 +91,12 @@ Example C09_nonvacuous :
   snd (chart 0 a) = [(NStr "A", 12); (NStr "B", 12)] /\ argmax_ann 0 a None = Some (NStr "A") /\
   mul_ann 0 a b = [[8]; [7]] /\ mul_ann 0 b a = [[8; 7]] /\
   itertracks (support_ann 0 a 0) = [((0, 12), NStr "A", NStr "A"); ((8, 20), NStr "B", NStr "B")] /\
-  argmax_ann 0 a (Some (SupSeg (10, 20))) = Some (NStr "B").
+  argmax_ann 0 a (Some (SupSeg (10, 20))) = Some (NStr "B") /\
+  snd (chart_percent 0 a) = [(NStr "A", (12, 24)); (NStr "B", (12, 24))].
 Proof. vm_compute. repeat split. Qed.
 
 Print Assumptions C09_chart.
+Print Assumptions C09_chart_percent_is_duration_over_sum_of_label_durations.
 Print Assumptions C09_label_duration_is_length_of_union.
 Print Assumptions C09_argmax.
 Print Assumptions C09_support_is_per_label_timeline_support.
